@@ -972,8 +972,11 @@ def make_rec_packetizer():
             self._rec_lock = threading.RLock()
             self._cur = None
             self.after_send = None      # hook(type, index) called while still serialised
+            self.before_send = None     # hook(type) called before anything is serialised
 
         def send_message(self, data):
+            if self.before_send is not None:
+                self.before_send(data.asbytes()[0])
             with self._rec_lock:
                 raw = data.asbytes()
                 self.sent_log.append(raw)
@@ -1020,8 +1023,30 @@ def first_deviation(recv, sent):
     return None
 
 
-def transport_session(ctx, compression, cipher=None, mac=None, rekey=False, replay_across_epochs=False):
-    """One real client/server Transport session.  Returns a dict with the logs and what happened."""
+def make_first_kexinit_only(base):
+    class FirstKexinitOnlyPeer(base):
+        """A peer that advertises the strict-kex marker only in its FIRST KEXINIT (it stays strict)."""
+
+        def _send_kex_init(self):
+            if not self.initial_kex_done:
+                return super()._send_kex_init()
+            saved = self.advertise_strict_kex
+            self.advertise_strict_kex = False
+            try:
+                return super()._send_kex_init()
+            finally:
+                self.advertise_strict_kex = saved
+
+    return FirstKexinitOnlyPeer
+
+
+def transport_session(ctx, compression, cipher=None, mac=None, rekey=False, replay_across_epochs=False,
+                      variant=None):
+    """One real client/server Transport session.  Returns a dict with the logs and what happened.
+    variant: strict_c / strict_s (advertise strict kex), first_only ('c' / 's': that side repeats the strict marker
+    only in its first KEXINIT), rekey_by ('client' / 'server' / 'threshold'), race (a user thread is parked just
+    before Packetizer.send_message of a CHANNEL_DATA while another thread starts the re-key)."""
+    variant = dict(variant or {})
     import logging
     import time
     import paramiko
@@ -1032,10 +1057,12 @@ def transport_session(ctx, compression, cipher=None, mac=None, rekey=False, repl
     from paramiko.common import MSG_NEWKEYS
     Rec = make_rec_packetizer()
     relay = Relay()
-    tc = paramiko.Transport(relay.c, packetizer_class=Rec)
-    ts = paramiko.Transport(relay.s, packetizer_class=Rec)
+    TC = make_first_kexinit_only(paramiko.Transport) if variant.get("first_only") == "c" else paramiko.Transport
+    TS = make_first_kexinit_only(paramiko.Transport) if variant.get("first_only") == "s" else paramiko.Transport
+    tc = TC(relay.c, packetizer_class=Rec, strict_kex=variant.get("strict_c", True))
+    ts = TS(relay.s, packetizer_class=Rec, strict_kex=variant.get("strict_s", True))
     res = {"compression": compression, "cipher": cipher, "mac": mac, "rekey": rekey, "error": None,
-           "steps": []}
+           "steps": [], "variant": variant}
     try:
         for t in (tc, ts):
             so = t.get_security_options()
@@ -1080,8 +1107,60 @@ def transport_session(ctx, compression, cipher=None, mac=None, rekey=False, repl
             if got != data or back != data[::-1]:
                 raise RuntimeError("channel data corrupted")
             res["steps"].append("data")
-            if rekey or replay_across_epochs:
-                tc.renegotiate_keys()
+            if (rekey or replay_across_epochs) and variant.get("race"):
+                # user thread about to hand CHANNEL_DATA to the packetizer; another thread starts the re-key
+                import threading as _th
+                user = _th.current_thread()
+                armed = _th.Event()
+                kexinit_seen = _th.Event()
+                rk = {}
+
+                def do_rekey():
+                    try:
+                        tc.renegotiate_keys()
+                        rk["r"] = "ok"
+                    except Exception as e:  # noqa
+                        rk["r"] = repr(e)
+
+                def before_send(mtype):
+                    if _th.current_thread() is user and mtype == 94 and armed.is_set():
+                        armed.clear()
+                        rk["t"] = _th.Thread(target=do_rekey, daemon=True)
+                        rk["t"].start()
+                        kexinit_seen.wait(0.5)      # correct code: KEXINIT cannot be written now (gate held)
+                    elif _th.current_thread() is not user and mtype == 20:
+                        kexinit_seen.set()
+                tc.packetizer.before_send = before_send
+                armed.set()
+                ch.sendall(b"A" * 700)
+                if "t" in rk:
+                    rk["t"].join(15)
+                tc.packetizer.before_send = None
+                if rk.get("r") != "ok":
+                    raise RuntimeError("renegotiate_keys during a user send: %s" % rk.get("r"))
+                n = 0
+                while n < 700:
+                    x = sch.recv(65536)
+                    if not x or x.strip(b"A"):
+                        raise RuntimeError("channel data lost / corrupted across the key change")
+                    n += len(x)
+                res["steps"].append("rekey")
+            elif rekey or replay_across_epochs:
+                by = variant.get("rekey_by", "client")
+                if by == "server":
+                    ts.renegotiate_keys()
+                elif by == "threshold":
+                    tc.packetizer.REKEY_BYTES = 1         # the next packet crosses the threshold
+                    ch.sendall(b"trigger")
+                    sch.recv(100)
+                    t0 = time.time()
+                    nk0 = sum(1 for m in tc.packetizer.sent_log if m[0] == MSG_NEWKEYS)
+                    while time.time() - t0 < 10 and (nk0 < 2 or tc.packetizer.need_rekey()):
+                        time.sleep(0.01)
+                        nk0 = sum(1 for m in tc.packetizer.sent_log if m[0] == MSG_NEWKEYS)
+                    tc.packetizer.REKEY_BYTES = pow(2, 29)
+                else:
+                    tc.renegotiate_keys()
                 res["steps"].append("rekey")
                 if not replay_across_epochs:
                     ch.sendall(b"after-rekey" * 20)
@@ -1152,7 +1231,7 @@ def transport_session(ctx, compression, cipher=None, mac=None, rekey=False, repl
 
 def transport_roundtrip_oracle(ctx, res, key_prefix="transport"):
     """Messages read by one side must be exactly (a prefix of) the messages the other side sent."""
-    desc = {k: res[k] for k in ("compression", "cipher", "mac", "rekey", "steps", "error")}
+    desc = {k: res.get(k) for k in ("compression", "cipher", "mac", "rekey", "steps", "error", "variant")}
     bad = False
     for name, recv, sent in (("server->client", res.get("c_recv", []), res.get("s_sent", [])),
                              ("client->server", res.get("s_recv", []), res.get("c_sent", []))):
@@ -1181,17 +1260,32 @@ def transport_checks(ctx):
         ci = rng.choice(ciphers)
         ma = None if "gcm" in ci else rng.choice(list(Transport._mac_info.keys()))
         plans.append((rng.choice(comps), ci, ma, rng.random() < 0.5))
-    for comp, ci, ma, rk in plans:
-        res = transport_session(ctx, comp, ci, ma, rekey=rk)
-        ctx.count(("transport", comp, ci, ma, rk), kind="transport-" + comp.split("@")[0] + ("-delayed" if "@" in comp else ""))
+    plans = [p + (None,) for p in plans]
+    # peer / configuration variety across a key change (all in thorough, rotating by seed in quick)
+    variants = [{"first_only": "s"}, {"first_only": "c"}, {"race": True}, {"rekey_by": "server"},
+                {"rekey_by": "threshold"}, {"strict_c": False}, {"strict_s": False, "rekey_by": "server"},
+                {"strict_c": False, "strict_s": False, "race": True}, {"first_only": "s", "rekey_by": "server"},
+                {"first_only": "c", "race": True}]
+    if not ctx.thorough:
+        k = ctx.seed % len(variants)
+        variants = variants[:3] + [variants[3 + (k + j) % (len(variants) - 3)] for j in range(2)]
+    for v in variants:
+        plans.append((rng.choice(comps), None, None, True, v))
+    for comp, ci, ma, rk, var in plans:
+        res = transport_session(ctx, comp, ci, ma, rekey=rk, variant=var)
+        ctx.count(("transport", comp, ci, ma, rk, repr(var)),
+                  kind="transport-" + comp.split("@")[0] + ("-delayed" if "@" in comp else "")
+                  + ("-" + "+".join(sorted(var)) if var else ""))
         bad = transport_roundtrip_oracle(ctx, res)
         if not bad and res["error"] is not None:
             # no decoded message deviates: retry once before believing a broken session
-            res2 = transport_session(ctx, comp, ci, ma, rekey=rk)
+            res2 = transport_session(ctx, comp, ci, ma, rekey=rk, variant=var)
             if not transport_roundtrip_oracle(ctx, res2) and res2["error"] is not None:
-                ctx.fail("transport-session-broken-" + comp.split("@")[0],
-                         "a real client/server session over the packet layer did not complete",
-                         case={k: res2[k] for k in ("compression", "cipher", "mac", "rekey", "steps")},
+                vk = "-".join(sorted(var)) if var else "default"
+                ctx.fail("transport-session-broken-" + (vk if var else comp.split("@")[0]),
+                         "a real client/server session over the packet layer did not complete (messages lost "
+                         "across a key change / peer variant)",
+                         case={k: res2.get(k) for k in ("compression", "cipher", "mac", "rekey", "steps", "variant")},
                          expected="auth, channel, data" + (", rekey, data2" if rk else ""), observed=res2["error"])
 
 
